@@ -1,13 +1,45 @@
-"""C08 fragments: the polyak arithmetic (utils.py) and the three cadence conditions (dqn.py, sac.py, td3.py).
-start patterns anchor on stable text only."""
+"""C08 fragments: the polyak arithmetic (utils.py), the three cadence conditions and the arguments of every polyak_update call
+(dqn.py, sac.py, td3.py).  start patterns anchor on stable text only; operators, callee names and arguments are picked."""
+_U = "stable_baselines3/common/utils.py"
+_TP = {"target_param.data": "t", "param.data": "p"}
+_TPI = [("t", "Q"), ("p", "Q"), ("tau", "Q")]
+# identities of the tensor lists handed to polyak_update (symbolic integer ids)
+_IDS = {"self.q_net.parameters()": 1, "self.q_net_target.parameters()": 2, "self.batch_norm_stats": 3, "self.batch_norm_stats_target": 4,
+        "self.critic.parameters()": 5, "self.critic_target.parameters()": 6, "self.actor.parameters()": 7, "self.actor_target.parameters()": 8,
+        "self.critic_batch_norm_stats": 9, "self.critic_batch_norm_stats_target": 10, "self.actor_batch_norm_stats": 11, "self.actor_batch_norm_stats_target": 12}
+
+
+def _pu(name, file, qual, nth, of, arg):
+    """argument `arg` (0 = source list, 1 = target list, 2 = tau) of the nth polyak_update call of the function"""
+    d = dict(name=name, file=file, qual=qual, start=r"^polyak_update\(", end=None, nth=nth, of=of, kind="callarg", call=r"polyak_update", arg=arg)
+    if arg == 2:
+        d.update(ret="Q", inputs=[("tau", "Q")], subst={"self.tau": "tau"})
+    else:
+        d.update(names=_IDS, inputs=[])
+    return d
+
+
 SPECS = [
-    # polyak_update: factor of mul_ and alpha of th.add
-    dict(name="polyak_scale", file="stable_baselines3/common/utils.py", qual="polyak_update",
-         start=r"^target_param\.data\.mul_\(", end=None, kind="subexpr", pick=r"[^()]*\btau\b[^()]*", ret="Q", inputs=[("tau", "Q")]),
-    dict(name="polyak_alpha", file="stable_baselines3/common/utils.py", qual="polyak_update",
-         start=r"^th\.add\(", end=None, kind="subexpr", pick=r"[^(),]*\btau\b[^(),]*", ret="Q", inputs=[("tau", "Q")]),
+    # polyak_update: WHICH in-place method scales WHAT by WHAT; which function adds what to what with which alpha into what
+    dict(name="polyak_scale_op", file=_U, qual="polyak_update", start=r"^target_param\.data\.\w+\(", end=None, kind="callarg",
+         call=r"target_param\.data\.\w+", arg="@name", names={"target_param.data.mul_": 1}, inputs=[]),
+    dict(name="polyak_scale", file=_U, qual="polyak_update", start=r"^target_param\.data\.\w+\(", end=None, kind="callarg",
+         call=r"target_param\.data\.\w+", arg=0, ret="Q", inputs=[("tau", "Q")]),
+    dict(name="polyak_add_op", file=_U, qual="polyak_update", start=r"^th\.\w+\(", end=None, kind="callarg", call=r"th\.\w+", arg="@name",
+         names={"th.add": 1}, inputs=[]),
+    dict(name="polyak_add_a", file=_U, qual="polyak_update", start=r"^th\.\w+\(", end=None, kind="callarg", call=r"th\.\w+", arg=0, ret="Q", inputs=_TPI, subst=_TP),
+    dict(name="polyak_add_b", file=_U, qual="polyak_update", start=r"^th\.\w+\(", end=None, kind="callarg", call=r"th\.\w+", arg=1, ret="Q", inputs=_TPI, subst=_TP),
+    dict(name="polyak_alpha", file=_U, qual="polyak_update", start=r"^th\.\w+\(", end=None, kind="callarg", call=r"th\.\w+", arg="alpha", ret="Q", inputs=_TPI, subst=_TP),
+    dict(name="polyak_out", file=_U, qual="polyak_update", start=r"^th\.\w+\(", end=None, kind="callarg", call=r"th\.\w+", arg="out", ret="Q", inputs=_TPI, subst=_TP),
+    # the pairing of the two lists: zip_strict(params, target_params) unpacked as (param, target_param)
+    dict(name="polyak_zip", file=_U, qual="polyak_update", start=r"^for param, target_param in ", end=None, kind="callarg", call=r"\w+", arg="@name",
+         names={"zip_strict": 1}, inputs=[]),
+    dict(name="polyak_zip_first", file=_U, qual="polyak_update", start=r"^for param, target_param in ", end=None, kind="callarg", call=r"\w+", arg=0,
+         names={"params": 1, "target_params": 2}, inputs=[]),
+    dict(name="polyak_zip_second", file=_U, qual="polyak_update", start=r"^for param, target_param in ", end=None, kind="callarg", call=r"\w+", arg=1,
+         names={"params": 1, "target_params": 2}, inputs=[]),
     # DQN._on_step
-    dict(name="dqn_count", file="stable_baselines3/dqn/dqn.py", qual="DQN._on_step", start=r"^self\._n_calls \+= ", end=None,
+    dict(name="dqn_count", file="stable_baselines3/dqn/dqn.py", qual="DQN._on_step", start=r"^self\._n_calls [-+*/]= ", end=None,
          inputs=[("n_calls", "Z")], subst={"self._n_calls": "n_calls"}, outputs=[("n_calls", "Z")]),
     dict(name="dqn_update_cond", file="stable_baselines3/dqn/dqn.py", qual="DQN._on_step", start=r"^if (not )?\(?self\._n_calls\b", end=None, kind="test",
          inputs=[("n_calls", "Z"), ("tui", "Z"), ("n_envs", "Z")],
@@ -16,26 +48,12 @@ SPECS = [
     dict(name="sac_update_cond", file="stable_baselines3/sac/sac.py", qual="SAC.train", start=r"^if (not )?\(?gradient_step\b", end=None, kind="test",
          inputs=[("gradient_step", "Z"), ("tui", "Z")], subst={"self.target_update_interval": "tui"}),
     # TD3.train
-    dict(name="td3_count", file="stable_baselines3/td3/td3.py", qual="TD3.train", start=r"^self\._n_updates \+= ", end=None,
+    dict(name="td3_count", file="stable_baselines3/td3/td3.py", qual="TD3.train", start=r"^self\._n_updates [-+*/]= ", end=None,
          inputs=[("n_updates", "Z")], subst={"self._n_updates": "n_updates"}, outputs=[("n_updates", "Z")]),
     dict(name="td3_update_cond", file="stable_baselines3/td3/td3.py", qual="TD3.train", start=r"^if (not )?\(?self\._n_updates\b", end=None, kind="test",
          inputs=[("n_updates", "Z"), ("policy_delay", "Z")], subst={"self._n_updates": "n_updates", "self.policy_delay": "policy_delay"}),
-    # the coefficient used for the normalisation running statistics at the update instants (a copy: tau = 1.0)
-    dict(name="dqn_bn_tau", file="stable_baselines3/dqn/dqn.py", qual="DQN._on_step", start=r"^polyak_update\(self\.batch_norm_stats\b", end=None,
-         kind="subexpr", pick=r"\d+(\.\d*)?|self\.tau", ret="Q", inputs=[("tau", "Q")], subst={"self.tau": "tau"}),
-    dict(name="sac_bn_tau", file="stable_baselines3/sac/sac.py", qual="SAC.train", start=r"^polyak_update\(self\.batch_norm_stats\b", end=None,
-         kind="subexpr", pick=r"\d+(\.\d*)?|self\.tau", ret="Q", inputs=[("tau", "Q")], subst={"self.tau": "tau"}),
-    dict(name="td3_critic_bn_tau", file="stable_baselines3/td3/td3.py", qual="TD3.train", start=r"^polyak_update\(self\.critic_batch_norm_stats\b", end=None,
-         kind="subexpr", pick=r"\d+(\.\d*)?|self\.tau", ret="Q", inputs=[("tau", "Q")], subst={"self.tau": "tau"}),
-    dict(name="td3_actor_bn_tau", file="stable_baselines3/td3/td3.py", qual="TD3.train", start=r"^polyak_update\(self\.actor_batch_norm_stats\b", end=None,
-         kind="subexpr", pick=r"\d+(\.\d*)?|self\.tau", ret="Q", inputs=[("tau", "Q")], subst={"self.tau": "tau"}),
-    # the coefficient used for the parameters: the configured tau
-    dict(name="dqn_param_tau", file="stable_baselines3/dqn/dqn.py", qual="DQN._on_step", start=r"^polyak_update\(self\.q_net\.parameters", end=None,
-         kind="subexpr", pick=r"\d+(\.\d*)?|self\.tau", ret="Q", inputs=[("tau", "Q")], subst={"self.tau": "tau"}),
-    dict(name="sac_param_tau", file="stable_baselines3/sac/sac.py", qual="SAC.train", start=r"^polyak_update\(self\.critic\.parameters", end=None,
-         kind="subexpr", pick=r"\d+(\.\d*)?|self\.tau", ret="Q", inputs=[("tau", "Q")], subst={"self.tau": "tau"}),
-    dict(name="td3_critic_param_tau", file="stable_baselines3/td3/td3.py", qual="TD3.train", start=r"^polyak_update\(self\.critic\.parameters", end=None,
-         kind="subexpr", pick=r"\d+(\.\d*)?|self\.tau", ret="Q", inputs=[("tau", "Q")], subst={"self.tau": "tau"}),
-    dict(name="td3_actor_param_tau", file="stable_baselines3/td3/td3.py", qual="TD3.train", start=r"^polyak_update\(self\.actor\.parameters", end=None,
-         kind="subexpr", pick=r"\d+(\.\d*)?|self\.tau", ret="Q", inputs=[("tau", "Q")], subst={"self.tau": "tau"}),
+    # every polyak_update call: source list, target list, coefficient (document order inside the function)
+    *[_pu(f"dqn_pu{k}_{nm}", "stable_baselines3/dqn/dqn.py", "DQN._on_step", k, 2, a) for k in range(2) for nm, a in (("src", 0), ("dst", 1), ("tau", 2))],
+    *[_pu(f"sac_pu{k}_{nm}", "stable_baselines3/sac/sac.py", "SAC.train", k, 2, a) for k in range(2) for nm, a in (("src", 0), ("dst", 1), ("tau", 2))],
+    *[_pu(f"td3_pu{k}_{nm}", "stable_baselines3/td3/td3.py", "TD3.train", k, 4, a) for k in range(4) for nm, a in (("src", 0), ("dst", 1), ("tau", 2))],
 ]
